@@ -267,6 +267,23 @@ func init() {
 	}
 	// a case whose source the real parser rejects (kept for the input distribution only)
 	implOps["noparse"] = func(f []string) string { return "OK unparsable" }
+	implOps["globals"] = func(f []string) string {
+		text, _ := unhx(f[0])
+		m, err := soy.ParseGlobals(strings.NewReader(string(text)))
+		if err != nil {
+			return "ERR"
+		}
+		keys := make([]string, 0, len(m))
+		for k := range m {
+			keys = append(keys, k)
+		}
+		sort.Strings(keys)
+		var out []string
+		for _, k := range keys {
+			out = append(out, hxs(k)+"="+valTokens(m[k]))
+		}
+		return "OK " + strings.Join(out, ";")
+	}
 	implOps["setglobals"] = func(f []string) string {
 		reg, err := compileCheck(decSources(f[0]))
 		if err != nil {
@@ -826,8 +843,86 @@ func genC06total(g *G) {
 			g.Add(Case{Req: r, NT: true, Class: "globals-render", Note: "render with globals " + body + " " + fmt.Sprint(gl)})
 		}
 	}
+	genGlobalsFiles(g)
 	g.Exhaustive = false
 }
+
+// globalsTrees mirrors the line discipline of ParseGlobals only as far as needed to hand the model the
+// parse results of the expression texts (in order), up to the first line that stops the scan.
+func globalsTrees(text string) string {
+	var trees []string
+	lines := strings.Split(text, "\n")
+	for _, line := range lines {
+		line = strings.TrimSuffix(line, "\r")
+		if len(line) == 0 || strings.HasPrefix(line, "//") {
+			continue
+		}
+		eq := strings.Index(line, "=")
+		if eq == -1 {
+			break
+		}
+		n, err, p := parseExprSafe(strings.TrimSpace(line[eq+1:]))
+		if p != nil || err != nil {
+			trees = append(trees, "ERR")
+			break
+		}
+		trees = append(trees, sxExpr(n))
+	}
+	if len(trees) == 0 {
+		return "-"
+	}
+	return strings.Join(trees, ";")
+}
+
+func genGlobalsFiles(g *G) {
+	eg := &exprGen{r: g.R, funcs: true, redundantParens: 5, illTyped: 15}
+	names := []string{"A", "B", "ns.C", "long_name", "A", "x.y.z"}
+	for i := 0; i < g.N(400, 5000); i++ {
+		var b strings.Builder
+		nl := 1 + g.R.Intn(5)
+		for k := 0; k < nl; k++ {
+			switch g.R.Intn(12) {
+			case 0:
+				b.WriteString("// comment = 1")
+			case 1:
+				// empty line
+			case 2:
+				b.WriteString("no equals here")
+			case 3:
+				b.WriteString(g.R.Pick(names) + " = 1 +")
+			case 4:
+				b.WriteString("  " + g.R.Pick(names) + "\t=\t" + eg.atom(tAny) + "  ")
+			case 5:
+				b.WriteString(g.R.Pick(names) + "=" + g.R.Pick([]string{"'a=b'", "1 == 1", "'x' + 1", "1 % 0", "$x.y", "'a' < 1", "-'x'", "null", "[1, 2]", "['k': 1]", "range(3)"}))
+			default:
+				b.WriteString(g.R.Pick(names) + " = " + eg.expr(1+g.R.Intn(2), ty(1+g.R.Intn(6))))
+			}
+			switch g.R.Intn(6) {
+			case 0:
+				b.WriteString("\r\n")
+			case 1:
+				if k == nl-1 {
+					break
+				}
+				b.WriteString("\n")
+			default:
+				b.WriteString("\n")
+			}
+		}
+		text := b.String()
+		// identifiers evaluate to an unset global (a nil value the model does not represent): keep them out
+		if identRe.MatchString(stripStrings(text)) {
+			continue
+		}
+		g.Add(Case{Req: req("globals", hxs(text), globalsTrees(text)), NT: true, Class: "parseglobals", Note: "ParseGlobals " + strconv.Quote(text)})
+	}
+}
+
+var identRe = regexp.MustCompile(`=[^\n]*\b(?:[A-Z_]+[A-Za-z_.]*|[a-z]+\.[a-z])\b`)
+
+func stripStrings(s string) string { return strLitRe.ReplaceAllString(s, "''") }
+
+var strLitRe = regexp.MustCompile(`'(?:[^'\\\n]|\\.)*'`)
 
 // spec requests are attached once the Spec ops exist (see evalspec.go)
 var attachSpecExec = func(c *Case) {}
